@@ -272,8 +272,13 @@ structure Ctx where
   selfC : Option Cls        -- `SelfClass`
 deriving Repr
 
-/-- context of a method body entered by `$o->m()` on an object of class `d` (`ClassValue.CreateContext`) -/
+/-- context on an object of class `d` before any method body is entered (`ClassValue.CreateContext`) -/
 def Ctx.ofObject (d : Cls) : Ctx := { cls := d, staticC := none, selfC := none }
+
+/-- context of a method body entered by `$o->m()` on an object of class `d`, the method being found in
+class `k`: since the repair of the visibility checks (`ClassMethod.Call` records the class whose method
+table holds the executing method in `SelfClass`) the body knows its defining class -/
+def Ctx.ofMethod (d k : Cls) : Ctx := { cls := d, staticC := none, selfC := some k }
 
 /-- the class whose parent `parent::` refers to: `SelfClass`, else the class the parser recorded
 (`CurrentClass`, used only if registered and it has a parent), else the context's class -/
